@@ -80,6 +80,12 @@ def lake_build(targets, timeout=3000):
     return r.returncode == 0, r.stdout
 
 
+def main_imports():
+    """Modules imported by the line-protocol driver Main.lean (must be built before `lean --run Main.lean`)."""
+    src = open(os.path.join(LEAN, "Main.lean")).read()
+    return re.findall(r"^import\s+(\S+)", src, flags=re.M)
+
+
 class InfraError(Exception):
     pass
 
